@@ -48,6 +48,7 @@ var (
 
 func runC19(p *core.Prog, r *core.Result) {
 	r.Decided = []string{
+		"R19.5 loading a configuration touches no package-level state: every load decodes the bytes afresh, so no two loaded configurations share maps or slices through a cache",
 		"R19.4 every format string of the writer is a constant: configuration data is only ever an operand, never the format",
 		"R19.1 the hand-written writer emits every toml-tagged field of Config and RequirementConfig, under the key given by the field's tag",
 		"R19.2 requirements are written in sorted key order (no Go-map iteration order reaches the output)",
@@ -184,6 +185,35 @@ func runC19(p *core.Prog, r *core.Result) {
 			r.Bad("R19.1", construct, p.Pos(w.Pos()), "%s is written under key %q but read from key %q: the value is lost on reload", name, k, f.Key)
 		default:
 			r.OK("R19.1", construct, p.Pos(w.Pos()), "written under its tag key %q", f.Key)
+		}
+	}
+
+	// ---- R19.5 loading is a function of the bytes: no package-level state
+	if lb := need(p, r, "R19.5", "internal/project", "", "LoadConfigBytes"); lb != nil {
+		var touched []string
+		var at ssa.Instruction
+		nF := 0
+		for f := range staticClosure(p, lb) {
+			if f.Pkg == nil || f.Pkg != lb.Pkg {
+				continue
+			}
+			nF++
+			core.Instrs(f, func(in ssa.Instruction) {
+				for _, op := range in.Operands(nil) {
+					if g, ok := (*op).(*ssa.Global); ok && g.Pkg == lb.Pkg {
+						touched = append(touched, g.Name())
+						if at == nil {
+							at = in
+						}
+					}
+				}
+			})
+		}
+		sort.Strings(touched)
+		if len(touched) > 0 {
+			r.Bad("R19.5", "internal/project.LoadConfigBytes#package-state", p.InstrPos(at), "loading a configuration reads or writes package-level state (%s): the value returned for some bytes can then depend on earlier loads and on what callers did with earlier results (a cached *Config shares its requirement map and ignore list with every copy handed out), so write-then-load no longer yields what was written", strings.Join(touched, ", "))
+		} else {
+			r.OK("R19.5", "internal/project.LoadConfigBytes#package-state", p.Pos(lb.Pos()), "the loader (%d function(s) of the package) touches no package-level variable: the result is decoded afresh from the bytes", nF)
 		}
 	}
 
